@@ -30,6 +30,7 @@ static bool tie(double x, double thr, double slack) { return std::fabs(std::fabs
 static void spectrum_cases(int d, const std::vector<double>& E, const std::vector<Pair>& pairs, const Args& ar, const std::vector<double>& T) {
   const ref::Basis& B = ref::basis(d);
   int np = d * (d - 1) / 2;
+  maybe_pollute(d, 13);
   SU_vector H = mkvec(d, B.proj(ref::diag(E)));
   double Emax = 0; for (double e : E) Emax = std::max(Emax, std::fabs(e));
   std::vector<double> w(np); for (int p = 0; p < np; p++) w[p] = E[pairs[p].j] - E[pairs[p].k];
@@ -45,6 +46,11 @@ static void spectrum_cases(int d, const std::vector<double>& E, const std::vecto
       std::vector<double> buf(2 * np, 7.0); std::vector<bool> avr(np, false), avr2(np, true);
       H.PrepareEvolve(buf.data(), t, scale, avr);
       { std::vector<double> b2(2 * np, -3.0); H.PrepareEvolve(b2.data(), t, scale, avr2); if (avr != avr2 || b2 != buf) violation("PrepareEvolve(avg):depends-on-previous-content" + ds, J().i("d", d).arr("spectrum", E).num("t", t).num("scale", scale).done()); }
+      // consumer: Evolve(buffer) with the averaged table multiplies entry (j,k) by CX+iSX of its pair, whatever the table holds
+      if (scale != 1e9) { std::vector<double> a = probe(d, 1); Mat A = B.tomat(a), R(d); for (int i = 0; i < d; i++) R(i, i) = A(i, i);
+        for (int p = 0; p < np; p++) { cd f(buf[p], buf[np + p]); int j = pairs[p].j, k = pairs[p].k; R(j, k) = A(j, k) * f; R(k, j) = A(k, j) * std::conj(f); }
+        SU_vector r = mkvec(d, a).Evolve(buf.data()); double e = maxdiff(comps(r), B.proj(R)); count("evaluations");
+        if (!(e <= 64 * d * ref::EPS * maxabs(a))) violation("Evolve(averaged-table):not-entrywise-product" + ds, J().i("d", d).arr("spectrum", E).num("t", t).num("scale", scale).arr("table", buf).num("err", e).done()); }
       for (int p = 0; p < np; p++) {
         double phase = w[p] * t;
         if (tie(phase, scale, 8 * ref::EPS * d * Emax * std::fabs(t))) { count("ties_skipped"); continue; }
@@ -96,7 +102,7 @@ static void spectrum_cases(int d, const std::vector<double>& E, const std::vecto
     }
   }
   // (c) interval average
-  const double IV[][2] = {{0, 1}, {-1, 2}, {0.5, 10}, {0, 1e-3}};
+  const double IV[][2] = {{0, 1}, {-1, 2}, {0.5, 10}, {0, 1e-3}, {-1.5, 1.5}, {-0.25, 0.25}};   // incl. intervals symmetric about 0 (every sine average vanishes exactly)
   std::vector<std::vector<double>> probes = {probe(d, 0), probe(d, 1)};
   for (auto& iv : IV) {
     double t0 = iv[0], t1 = iv[1], range = t1 - t0;
